@@ -229,8 +229,12 @@ func serverHandlers(c *an.Check) *srvHandlers {
 		return nil
 	}
 	h.send = one(closuresWhere(h.sess, func(g *ssa.Function) bool { return callsAny(g, cSMEV) }))
-	h.ack = one(closuresWhere(h.sess, func(g *ssa.Function) bool { return storesField(g, h.outAckedF, func(v ssa.Value) bool { return !isNilConst(v) }) }))
-	h.clear = one(closuresWhere(h.sess, func(g *ssa.Function) bool { return storesField(g, h.recvClearF, func(v ssa.Value) bool { return !isNilConst(v) }) }))
+	h.ack = one(closuresWhere(h.sess, func(g *ssa.Function) bool {
+		return storesField(g, h.outAckedF, func(v ssa.Value) bool { return !isNilConst(v) })
+	}))
+	h.clear = one(closuresWhere(h.sess, func(g *ssa.Function) bool {
+		return storesField(g, h.recvClearF, func(v ssa.Value) bool { return !isNilConst(v) })
+	}))
 	h.check = one(pkgFuncsWhere(p, srvPkg, func(f *ssa.Function) bool {
 		sig := f.Signature
 		return sig.Recv() != nil && sig.Params().Len() == 1 && sig.Results().Len() == 2 && sig.Results().At(0).Type().String() == "bool" && sig.Results().At(1).Type().String() == "error" && isNamedPtr(sig.Recv().Type(), "sessionTracker")
@@ -535,7 +539,9 @@ func c21(c *an.Check) {
 	}
 	// the client clear handler: literal that clears recv and compares recv.Seqno with a parameter of its parent
 	var clearLit *ssa.Function
-	for _, g := range closuresWhere(ex, func(g *ssa.Function) bool { return storesField(g, recvF, isNilConst) && g.Parent() != nil && g.Parent().Parent() == ex }) {
+	for _, g := range closuresWhere(ex, func(g *ssa.Function) bool {
+		return storesField(g, recvF, isNilConst) && g.Parent() != nil && g.Parent().Parent() == ex
+	}) {
 		if len(g.Parent().Params) == 1 && g.Parent().Params[0].Type().String() == "uint64" && g != ackLit {
 			clearLit = g
 		}
@@ -619,15 +625,15 @@ func clientLockset(c *an.Check) {
 
 func init() {
 	register(&Def{ID: "C19", Run: c19,
-		Explain: "Decides on SSA (closures explored with the facts of their creation site): the client stores an incoming message into its receive slot only inside the handler that (R1) saw SessionMsg.ExtractAndVerify succeed and the verified sender's string equal the session's peer key, the stored message being the verified one; verification failure is returned as an error (R2a); no other function stores a message there (WHO); the read loop's switch covers exactly the response bodies SessionResponse.Validate knows (SIBLING); NewSessionMsg / ExtractAndVerify / Validate use one context constant and forward SignedMsg.ExtractAndVerify's verdict (MIRROR). Inherits C01 for the verifier itself.",
-		NotCov:  "recipient/epoch binding of the signed bytes (a protocol-design fact: the signature covers neither), Ed25519 soundness.",
+		Explain:     "Decides on SSA (closures explored with the facts of their creation site): the client stores an incoming message into its receive slot only inside the handler that (R1) saw SessionMsg.ExtractAndVerify succeed and the verified sender's string equal the session's peer key, the stored message being the verified one; verification failure is returned as an error (R2a); no other function stores a message there (WHO); the read loop's switch covers exactly the response bodies SessionResponse.Validate knows (SIBLING); NewSessionMsg / ExtractAndVerify / Validate use one context constant and forward SignedMsg.ExtractAndVerify's verdict (MIRROR). Inherits C01 for the verifier itself.",
+		NotCov:      "recipient/epoch binding of the signed bytes (a protocol-design fact: the signature covers neither), Ed25519 soundness.",
 		Assumptions: commonAssumptions})
 	register(&Def{ID: "C20", Run: c20,
-		Explain: "Decides on SSA: the relay stores a message for delivery only in the send handler, on paths where (R1) ExtractAndVerify succeeded, the verified sender equals the identity s.ident(ctx) of the submitting stream, the epoch check returned (true,nil) for the message's epoch, this call is still the registered peer, the partner is attached, and the slot written is the partner's with the verified message; the epoch check returns true only as (stored epoch == message epoch) and errors on future epochs; registration happens only past a well-formed init (identity ok, epoch 0, parsable non-empty destination != self); the request switch covers exactly Validate's bodies; all tracker state is touched only under Server.mtx (LOCKSET).",
-		NotCov:  "end-to-end history statements; the verifier itself is C01.",
+		Explain:     "Decides on SSA: the relay stores a message for delivery only in the send handler, on paths where (R1) ExtractAndVerify succeeded, the verified sender equals the identity s.ident(ctx) of the submitting stream, the epoch check returned (true,nil) for the message's epoch, this call is still the registered peer, the partner is attached, and the slot written is the partner's with the verified message; the epoch check returns true only as (stored epoch == message epoch) and errors on future epochs; registration happens only past a well-formed init (identity ok, epoch 0, parsable non-empty destination != self); the request switch covers exactly Validate's bodies; all tracker state is touched only under Server.mtx (LOCKSET).",
+		NotCov:      "end-to-end history statements; the verifier itself is C01.",
 		Assumptions: commonAssumptions})
 	register(&Def{ID: "C21", Run: c21,
-		Explain: "Decides on SSA: every store made by the four ack/clear handlers is dominated by equality of the named seqno with the stored message's seqno (server: *recvSent==ack → partner.outAcked, recv.Seqno==clear → drop, *recvSent==clear → partner.recvClear, each also behind current-epoch / still-registered / partner-attached; client: out.Seqno==ack, recv.Seqno==clear); the client schedules an AckMsg only for a message whose recvProcessed is true, which only ClientPeerRef.Recv sets; outAcked/recvClear are set only by their handlers (WHO); server state only under Server.mtx and client tracker state only under its broadcast lock (LOCKSET).",
-		NotCov:  "the end-to-end history statement (ack observed ⇒ partner received) — needs a model of both sides and the transport.",
+		Explain:     "Decides on SSA: every store made by the four ack/clear handlers is dominated by equality of the named seqno with the stored message's seqno (server: *recvSent==ack → partner.outAcked, recv.Seqno==clear → drop, *recvSent==clear → partner.recvClear, each also behind current-epoch / still-registered / partner-attached; client: out.Seqno==ack, recv.Seqno==clear); the client schedules an AckMsg only for a message whose recvProcessed is true, which only ClientPeerRef.Recv sets; outAcked/recvClear are set only by their handlers (WHO); server state only under Server.mtx and client tracker state only under its broadcast lock (LOCKSET).",
+		NotCov:      "the end-to-end history statement (ack observed ⇒ partner received) — needs a model of both sides and the transport.",
 		Assumptions: commonAssumptions})
 }
